@@ -5,6 +5,7 @@ import (
 	"encoding/json"
 	"fmt"
 	"io"
+	"math"
 	"net"
 	"net/http"
 	neturl "net/url"
@@ -113,7 +114,8 @@ func c12Norm(text string) string {
 	return strings.Join(out, "\n")
 }
 
-var c12Choices = []SlotChoice{{Kind: "absent"}, {Kind: "value", V: 0.1}, {Kind: "value", V: -2}}
+// the third choice is IEEE negative zero: a stored value whose sign only a bit-exact transport keeps
+var c12Choices = []SlotChoice{{Kind: "absent"}, {Kind: "value", V: 0.1}, {Kind: "value", V: math.Copysign(0, -1)}}
 
 func c12Eval(c *fw.Ctx, k c12Case) (sig, desc string, nontrivial bool) {
 	url, root := c12Server(c)
